@@ -106,11 +106,12 @@ add("C20", "exploration",
     "rebuilds after a pre-history; plus a function-level system in which 2-8 actors run the lookup/build/store cycle of the index, "
     "BED and alignment caches (read_mapper.find_stored_*/store_*) and the db-to-GTF direction of the annotation cache with stub "
     "artefacts whose content tags reveal a foreign artefact (inputs optionally carry identical time stamps); a family in which one "
-    "of the concurrent runs is SIGKILLed at a seeded shared event (survivors are judged). "
+    "of the concurrent runs is SIGKILLed at a seeded shared event (survivors are judged); a family of runs that start together on a "
+    "reference without .fai (the index file is then a shared path: truncate, fill, read back and rename are events). "
     "Judged per actor: exit 0, outputs equal the same invocation alone, database used = conversion of its own annotation, cache "
     "files well-formed.",
-    "Trusted: logical mtimes (change iff modified), atomicity of sqlite commits and of pysam/pyfaidx writes; reference .fai "
-    "pre-built; the aligners themselves cannot run here (no minimap2/STAR): their caches are exercised with stub artefacts.",
+    "Trusted: logical mtimes (change iff modified), atomicity of sqlite commits and of pysam writes; reference .fai "
+    "pre-built except in the fresh-reference family; the aligners themselves cannot run here (no minimap2/STAR): their caches are exercised with stub artefacts.",
     "deterministic simulation of concurrent actors with a seeded scheduler over shared-cache events, vs run-alone golden outputs",
     qt=900, tt=2400)
 
